@@ -239,7 +239,7 @@ class AbstractPathModelDAG(ABC):
                 
         self.safe_lists = []
         if self.external_safe_paths is not None:
-            self.safe_lists = self.external_safe_paths
+            self.safe_lists = list(self.external_safe_paths)
         elif self.optimize_with_safe_paths and not self.is_solved() and self.trusted_edges_for_safety is not None:
             start_time = time.perf_counter()
             self.safe_lists += safetypathcovers.safe_paths(
